@@ -5,7 +5,7 @@ import numpy as np
 from hypothesis import strategies as st
 
 from ..core import Clause, Discard, call, require
-from ..strategies import tame_threshold_case, threshold_configs, with_config, bank_specs, floats
+from ..strategies import round_linear_tri_specs, tame_threshold_case, threshold_configs, with_config, bank_specs, floats
 from .c05 import _thr, apply_warmup, bank_labels, build_or_discard, narrowed_specs, warmups
 
 PROPERTY = "C07"
@@ -77,6 +77,17 @@ def check_agree(case):
         W = base
     elif mode == "base+1":
         W = base + 1
+    elif mode == "fragile":
+        # the first width at or above the drawn one at which a grid built with a floating-point step miscounts
+        import bisect
+
+        from ..strategies import fragile_width_list
+
+        ws = fragile_width_list(5000)
+        W = int(math.floor(base * case["mult"]))
+        k = bisect.bisect_left(ws, W)
+        if k < len(ws) and ws[k] <= 4 * base:
+            W = ws[k]
     else:
         W = int(math.floor(base * case["mult"]))
     W = max(W, 1)
@@ -158,10 +169,15 @@ def _cases():
         narrowed_specs(KINDS, max_filts=24, rates=LOW_RATES, **kw),
         # many narrow filters at a high rate: the temporal supports are long and depend on the rate itself
         bank_specs(kinds=KINDS, rates=[32000, 44100, 48000], max_filts=40, min_filts=24, **kw),
+        # triangular filters whose two sides differ in width (the knees of the Bark scale, 20+ filters)
+        bank_specs(kinds=["tri"], rates=[8000, 16000, 22050], max_filts=40, min_filts=20).map(
+            lambda b: dict(b, scale={"alias": "bark"}, low_hz=max(b["low_hz"], 0.0))),
+        # linear scale with round vertices: DFT bins fall exactly on the vertices of the triangles
+        round_linear_tri_specs(),
     )
     return st.fixed_dictionaries({
         "bank": banks, "filt": st.integers(0, 39),
-        "wmode": st.sampled_from(["base", "base+1", "mult", "mult", "mult"]),
+        "wmode": st.sampled_from(["base", "base+1", "mult", "mult", "mult", "fragile"]),
         "mult": st.one_of(floats(1.0, 4.0), floats(1.0, 1.2)),
         "warmup": warmups(),
         "config": threshold_configs(),
